@@ -456,3 +456,74 @@ def extra_c05(prop, tier, seed, profiles):
 
 
 PLANS["C05"]["extra"] = extra_c05
+
+
+# ---------------------------------------------------------------------------------------------------
+# C20
+
+def rec_c20b_overshoot(f):
+    """F-C20b: an overshooting (Back-family) easing drives an integer property at/near its type's bounds
+    outside the range; the checked conversion panics as documented under `# Panics` of Lerp."""
+    if f.get("got") != "panic:int-range": return False
+    tls = [o for o in f.get("ops", []) if o.startswith("tl ")]
+    return bool(tls) and any("Back" in t for t in tls)
+
+
+def extra_c20(prop, tier, seed, profiles):
+    """valid-but-extreme configurations: no panic, no NaN/inf out of finite inputs (implementation alone);
+    identical output in debug and release is checked by the runner for every suite."""
+    n = 1500 if tier == "quick" else 60000
+    path = os.path.join(P.WORK, prop, f"oracle.{tier}.ops")
+    os.makedirs(os.path.dirname(path), exist_ok=True)
+    P.gen_ops("ext", seed + 2020, n, path)
+    fails, checked = [], 0
+    hist = {"ext-pos-values": 0, "ext-upd-values": 0}
+    outs = {}
+    for prof in profiles:
+        out = path[:-4] + f".{prof}"
+        P.run_stream(P.harness_bin(prof), ["run"], path, out)
+        outs[prof] = P.read_lines(out)
+    ops = P.read_lines(path)
+    impl = outs[profiles[0]]
+    def finite(tok):
+        try: b = int(tok.split("!")[0])
+        except ValueError: return True
+        return (b >> 23) & 0xFF != 0xFF
+    for L, (op, o) in enumerate(zip(ops, impl)):
+        w = op.split(" ")
+        if not op or op.startswith("#") or w[0] in ("reset", "shape"): continue
+        checked += 1
+        for prof in profiles[1:]:
+            if outs[prof][L] != o:
+                fails.append(dict(line=L, directive=f"relational debug and release agree ({profiles[0]} vs {prof})", op=op, got=o, want=outs[prof][L], ops=P.block_of(ops, L)))
+        if o.startswith("panic"):
+            fails.append(dict(line=L, directive="oracle valid configuration never panics", op=op, got=o, want="no panic", ops=P.block_of(ops, L)))
+            continue
+        if w[0] == "pos":
+            toks = o.split(" ")
+            if toks[0] != "inf" and not finite(toks[0]):
+                fails.append(dict(line=L, directive="oracle total duration finite", op=op, got=toks[0], want="finite", ops=[op]))
+            for r in toks[1:]:
+                if r == "N": continue
+                hist["ext-pos-values"] += 1
+                v = r[1:].split(":")[0]
+                x = f32(v)
+                if not (finite(v) and 0.0 <= x <= 1.0):
+                    fails.append(dict(line=L, directive="oracle position finite and in [0,1]", op=op, got=r, want="[0,1]", ops=[op])); break
+        elif w[0] == "upd":
+            for k, tok in enumerate(o.split(" ")):
+                hist["ext-upd-values"] += 1
+                if k in (0, 1, 6) and not finite(tok):
+                    fails.append(dict(line=L, directive="oracle finite inputs never become NaN/inf", op=op, got=tok, want="finite", ops=P.block_of(ops, L))); break
+    return dict(checked=checked, fails=fails, evaluations=checked, hist=hist)
+
+
+PLANS["C20"] = dict(
+    suites=[Suite("ext", 800, 40000), Suite("pos", 800, 30000), Suite("tl", 150, 8000), Suite("anim", 150, 8000), Suite("merged", 60, 3000), Suite("lerp", 1500, 50000)],
+    floors={"quick": {"ext-pos-values": 20000, "ext-upd-values": 2000, "op:pos": 1000}},
+    extra=extra_c20,
+    recognisers={"c20b_overshoot": rec_c20b_overshoot},
+    profiles_must_agree=True,
+    assumptions=["valid configuration: cycle duration > 0, finite delay ≥ 0, positions in [0,1], total duration representable in f32 (delay + cycle×(repeats+1) ≤ f32::MAX), finite values",
+                 "FMA contraction / x87 and other optimiser- or target-dependent float behaviour cannot be exhibited by the model; covered only by the two-profile run on this machine (partial)"],
+)
